@@ -63,7 +63,7 @@ impl TryFrom<&ctehexml::CtehexmlData> for Model {
         let cons = cons_from_bdl(bdl, &id_maps)?;
         let spaces = spaces_from_bdl(bdl, &id_maps)?;
         let walls = walls_from_bdl(bdl, &id_maps)?;
-        let (windows, shades) = windows_and_shades_from_bdl(bdl, &walls, &id_maps);
+        let (windows, shades) = windows_and_shades_from_bdl(bdl, &walls, &id_maps)?;
         let thermal_bridges = thermal_bridges_from_bdl(bdl);
 
         // Completa metadatos desde ctehexml y el bdl
@@ -317,14 +317,17 @@ fn windows_and_shades_from_bdl(
     bdl: &Data,
     walls: &[Wall],
     id_maps: &IdMaps,
-) -> (Vec<Window>, Vec<Shade>) {
+) -> Result<(Vec<Window>, Vec<Shade>), Error> {
     //TODO: falta por trasladar la definición de lamas (louvres)
     let mut windows = vec![];
     let mut shades = vec![];
 
     for win in &bdl.windows {
         let id = uuid_from_obj(win);
-        let wall = walls.iter().find(|w| w.name == win.wall).unwrap();
+        let wall = walls
+            .iter()
+            .find(|w| w.name == win.wall)
+            .ok_or_else(|| format_err!("Opaco {} del hueco {} no encontrado", win.wall, win.name))?;
 
         // Definición del hueco
         let window = Window {
@@ -350,7 +353,12 @@ fn windows_and_shades_from_bdl(
             let wall2world = wall
                 .geometry
                 .to_global_coords_matrix()
-                .expect("El opaco debe tener definición geométrica completa");
+                .ok_or_else(|| {
+                    format_err!(
+                        "El opaco {} debe tener definición geométrica completa",
+                        wall.name
+                    )
+                })?;
 
             // Alero sobre el hueco
             if let Some(overhang) = &win.overhang {
@@ -424,10 +432,10 @@ fn windows_and_shades_from_bdl(
     }
 
     // Añade sombras independientes
-    let othershades = shades_from_bdl(bdl);
+    let othershades = shades_from_bdl(bdl)?;
     shades.extend_from_slice(&othershades);
 
-    (windows, shades)
+    Ok((windows, shades))
 }
 
 /// Construye puentes térmicos de la envolvente a partir de datos BDL
@@ -470,10 +478,10 @@ fn thermal_bridges_from_bdl(bdl: &Data) -> Vec<ThermalBridge> {
 /// - por vértices
 /// Ver BDL Topics p.158
 /// Convertimos todos los casos a geometría como la de los muros: position + tilt + azimuth + Pol2D
-fn shades_from_bdl(bdl: &Data) -> Vec<Shade> {
+fn shades_from_bdl(bdl: &Data) -> Result<Vec<Shade>, Error> {
     bdl.shadings
         .iter()
-        .filter_map(|sh| {
+        .filter_map(|sh| -> Option<Result<Shade, Error>> {
             let id = uuid_from_obj(sh);
             let name = sh.name.clone();
             let global_deviation = global_deviation_from_north(bdl);
@@ -501,14 +509,22 @@ fn shades_from_bdl(bdl: &Data) -> Vec<Shade> {
             } else if let Some(vertices) = sh.vertices.as_ref() {
                 // 2. Sombras definidas por vértices
                 // Aquí tenemos que tener cuidado con las operaciones de giros ya que tienen criterios de medición distintos
+                if vertices.len() < 3 {
+                    return Some(Err(format_err!(
+                        "Sombra {} definida con menos de tres vértices",
+                        sh.name
+                    )));
+                }
                 let normal = (vertices[1] - vertices[0]).cross(&(vertices[2] - vertices[1]));
                 // XXX: Esto se podría evitar iterando hasta encontrar dos segmentos que no sean colineales
                 // Basta con ir probando los siguientes tres puntos
                 // https://community.khronos.org/t/how-to-calculate-polygon-normal/49265/3
-                assert!(
-                    normal.magnitude() > 10.0 * f32::EPSILON,
-                    "Polígono con puntos colineales"
-                );
+                if normal.magnitude() <= 10.0 * f32::EPSILON {
+                    return Some(Err(format_err!(
+                        "Sombra {} con polígono de puntos colineales",
+                        sh.name
+                    )));
+                }
                 let tilt = Vector3::z_axis().angle(&normal);
                 // Azimuth del elemento de sombra (¡Atención! Criterio EN S=0, E=+90, W=-90)
                 let shade_azimuth = if (tilt % std::f32::consts::PI).abs() > (10.0 * f32::EPSILON) {
@@ -549,10 +565,13 @@ fn shades_from_bdl(bdl: &Data) -> Vec<Shade> {
                     polygon,
                 )
             } else {
-                panic!("Definición inesperada de elemento de sombra");
+                return Some(Err(format_err!(
+                    "Definición inesperada del elemento de sombra {}",
+                    sh.name
+                )));
             };
 
-            Some(Shade {
+            Some(Ok(Shade {
                 id,
                 name,
                 geometry: WallGeom {
@@ -561,7 +580,7 @@ fn shades_from_bdl(bdl: &Data) -> Vec<Shade> {
                     position,
                     polygon,
                 },
-            })
+            }))
         })
         .collect()
 }
